@@ -7,6 +7,10 @@ from rules import shared
 
 # sites whose safety rests on a data-structure invariant rather than on a local
 # guard: one named symbol + reason each (never wider)
+# the same exemption keyed by what the function IS (the map-back returning (column, signed row)), not by its name
+EXEMPT_LOOP_INDEX_BY_SIGNATURE = {
+    ("(usize, isize)", 2): "second loop of the map-back: `rel_row` only advances while the row it indexes is soft-wrapped, and the last row of a buffer is never soft-wrapped (C02.R8)",
+}
 EXEMPT_LOOP_INDEX = {
     ("buffer::Buffer::relative_position", 2): "second loop advances only while lines[rel_row].wrapped; the last line of a buffer is never soft-wrapped (C02.R8 / C04.Y3), so it stops before len",
 }
@@ -612,8 +616,9 @@ def loop_index(ctx, w, S, reach):
             k += 1
             n += 1
             key = (fn, k)
-            if key in EXEMPT_LOOP_INDEX:
-                ctx.ok("R8", "%s#%d(exempt)" % key, {"fn": fn, "reason": EXEMPT_LOOP_INDEX[key]})
+            sig_key = ((w.facts.fns.get(fn, {}).get("output") or {}).get("s"), k)
+            if key in EXEMPT_LOOP_INDEX or sig_key in EXEMPT_LOOP_INDEX_BY_SIGNATURE:
+                ctx.ok("R8", "%s#%d(exempt)" % key, {"fn": fn, "reason": EXEMPT_LOOP_INDEX.get(key) or EXEMPT_LOOP_INDEX_BY_SIGNATURE[sig_key]})
                 continue
             gs = [(WD.strip_names(c), v) for c, v in w.guards_of(fn, cs.point[0])]
             idx_local = cs.term["args"][1]
